@@ -123,7 +123,7 @@ def serializeVerdict (H : Hashes) (m : Msg) (secret : Option Bytes) (b : Bytes) 
       match secret with
       | none => if (b.drop 4).take 16 == m.auth then "ok" else "bad authenticator-changed"
       | some sec =>
-        let signed := m.code = 2 || m.code = 3 || m.code = 11 || m.code = 5 || m.code = 4
+        let signed := m.code = 2 || m.code = 3 || m.code = 11 || m.code = 5 || m.code = 4 || m.code = 42 || m.code = 45
         let reqAuth := if m.code = 4 then zeros 16 else m.auth
         -- the last Message-Authenticator must verify (earlier ones are copied verbatim)
         let mas := msgAuthPositions (b.length + 1) (b.drop 20) 20
